@@ -1,6 +1,7 @@
 package props
 
 import (
+	"verif/fold"
 	"fmt"
 	"math"
 	"os"
@@ -190,7 +191,7 @@ func neighbours(s *sim.Src, v sq.Val) []sq.Val {
 			// that agree up to the NUL are "equal"): outside the property's text, not explored
 			break
 		}
-		out = append(out, strings.ToUpper(x), strings.ToLower(x), x+" ", x+"  ", x+"\t", x+"\n", strings.TrimRight(x, " "), x+"a", []byte(x))
+		out = append(out, strings.ToUpper(x), strings.ToLower(x), fold.Upper(x), x+" ", x+"  ", x+"\t", x+"\n", strings.TrimRight(x, " "), x+"a", []byte(x))
 		if len(x) > 0 {
 			out = append(out, x[:len(x)-1])
 			sw := []byte(x)
@@ -255,7 +256,7 @@ func checkEq(c *sim.Ctx, d *sqlittle.DB, t *sq.Table, ix *sq.Index, key []sq.Val
 		feature := "other"
 		if len(key) > 0 {
 			last := len(key) - 1
-			coll := strings.ToLower(ix.XInfo[last].Coll)
+			coll := fold.Lower(ix.XInfo[last].Coll)
 			switch k := key[last].(type) {
 			case string:
 				feature = "text-" + coll
@@ -283,7 +284,7 @@ func checkEq(c *sim.Ctx, d *sqlittle.DB, t *sq.Table, ix *sq.Index, key []sq.Val
 	}
 	if len(key) > 0 {
 		last := len(key) - 1
-		c.State(op.Kind, len(key), fmt.Sprintf("%T", key[last]), strings.ToLower(ix.XInfo[last].Coll), ix.XInfo[last].Desc, min(len(want), 2), t.WithoutRowid)
+		c.State(op.Kind, len(key), fmt.Sprintf("%T", key[last]), fold.Lower(ix.XInfo[last].Coll), ix.XInfo[last].Desc, min(len(want), 2), t.WithoutRowid)
 	}
 	if len(want) > 0 {
 		c.Nontrivial = true
@@ -452,7 +453,7 @@ func c04Check(c *sim.Ctx, w *world.World) {
 		nb := 0
 		if u > 0 {
 			for _, m := range w.Snap.Master {
-				if m.Type == "table" && strings.EqualFold(m.Name, t.Name) && m.Rootpage > 0 {
+				if m.Type == "table" && fold.Equal(m.Name, t.Name) && m.Rootpage > 0 {
 					tr := pagewalk.Shape(img, u, m.Rootpage)
 					for _, b := range tr.Boundaries {
 						add(b)
